@@ -709,7 +709,7 @@ func main() {
 	// the process is alive
 	go func() {
 		for {
-			vk.Beat()
+			vk.TouchSlots()
 			time.Sleep(5 * time.Second)
 		}
 	}()
